@@ -16,7 +16,7 @@ pub fn deadline_exceeded(deadline: Option<Instant>) -> bool {
     match deadline {
         Some(deadline) => {
             #[cfg(similar_verif)]
-            if let Some(answer) = crate::verif::clock_probe() {
+            if let Some(answer) = crate::verif::clock_probe(deadline) {
                 return answer;
             }
             #[cfg(all(target_arch = "wasm32", not(feature = "wasm32_web_time")))]
@@ -36,6 +36,10 @@ pub fn duration_to_deadline(add: Duration) -> Option<Instant> {
     #[cfg(all(target_arch = "wasm32", not(feature = "wasm32_web_time")))]
     {
         return None;
+    }
+    #[cfg(similar_verif)]
+    if let Some(now) = crate::verif::virtual_now() {
+        return now.checked_add(add);
     }
     Instant::now().checked_add(add)
 }
